@@ -271,9 +271,29 @@ func runC09(c *runCtx) {
 				continue
 			}
 			seen := map[uintptr]int{}
+			storage := map[string]map[uintptr]int{} // list field -> address of its backing array -> draw
 			for k := 0; k < 6; k++ {
 				o := pe.get()
 				addr := reflect.ValueOf(o).Pointer()
+				// lists that come with room to grow: each drawn object has storage of its own (appending to one must not
+				// write into another that is still held)
+				if ov := reflect.ValueOf(o).Elem(); ov.Kind() == reflect.Struct {
+					for fi := 0; fi < ov.NumField(); fi++ {
+						f := ov.Field(fi)
+						if f.Kind() != reflect.Slice || f.Cap() == 0 {
+							continue
+						}
+						name := pe.typ.Field(fi).Name
+						if storage[name] == nil {
+							storage[name] = map[uintptr]int{}
+						}
+						if j, dup := storage[name][f.Pointer()]; dup {
+							res.fail("pool-objects-share-storage:"+pe.typ.Name()+"."+name, fmt.Sprintf("draws %d and %d from the %s pool, both held, have the same backing array for %s: filling one overwrites the other", j, k, pe.typ.Name(), name),
+								map[string]any{"history": []string{"gosqlx.Parse", "ast.ReleaseAST", "6 x Get" + strings.TrimPrefix(pe.site, "Put")}, "sql": truncate(sqlText, 300)}, map[string]any{"capacity": f.Cap()})
+						}
+						storage[name][f.Pointer()] = k
+					}
+				}
 				if j, dup := seen[addr]; dup {
 					res.fail("pool-holds-object-twice:"+pe.typ.Name(), fmt.Sprintf("after a tree was released, draws %d and %d from the %s pool return the same object while both are held", j, k, pe.typ.Name()),
 						map[string]any{"history": []string{"gosqlx.Parse", "ast.ReleaseAST", "6 x Get" + strings.TrimPrefix(pe.site, "Put")}, "sql": sqlText}, nil)
